@@ -303,7 +303,18 @@ def check_console(t, viol, obs):
                 except ValueError:
                     pass
             act = [float(v) for v in sn["y"]] if sn["y"] is not None else []
-            ok = len(nums) == len(act) and all(abs(a - b) <= 1e-7 * abs(b) or (a != a and b != b) for a, b in zip(nums, act))
+            # a printed coordinate is right when it is the actual one to 1e-7 relative OR the number the shipped rendering (numpy's
+            # str of the array: 8 decimals in fixed notation, 8 significant digits in scientific notation) shows for it
+            shipped = []
+            for tok in re.findall(r"[-+]?(?:\d+\.\d*|\.\d+|\d+)(?:[eE][-+]?\d+)?|[-+]?inf|nan", exp[k]):
+                try:
+                    shipped.append(float(tok))
+                except ValueError:
+                    pass
+            if len(shipped) != len(act):
+                shipped = act
+            ok = len(nums) == len(act) and all(abs(a - b) <= 1e-7 * abs(b) or abs(a - c_) <= 1e-12 * abs(c_) or (a != a and b != b)
+                                               for a, b, c_ in zip(nums, act, shipped))
             obs["console_points_compared_numerically"] = obs.get("console_points_compared_numerically", 0) + 1
             if not ok:
                 viol.append({"mech": "console-report-wrong", "field": k, "printed": d[k], "solution": exp[k]})
